@@ -461,3 +461,161 @@ class CombinationMonitor(Monitor):
                 ctx.violate("interpolant_reproduces_function", self.sig(sim),
                             "combined interpolant at grid point %s is %s, function value %s (tol %.2e); scheme=%s" % (P[i], vals[i, :nn].tolist(), ref[i, :nn].tolist(), tol, sorted(scheme.items())))
             ctx.ok("interpolant_reproduces_function", len(P))
+
+
+# ------------------------------------------------------------------ C04: exactness monitor
+
+def initial_space_probes(r, cfg, n):
+    """random basis functions (and one random combination) of the initial (lmin,lmax) sparse-grid space"""
+    dim, lmin, lmax = cfg["dim"], cfg["lmin"], cfg["lmax"]
+    lo = 0 if cfg["boundary"] else 1
+    budget = lmax + (dim - 1) * lmin
+
+    def draw():
+        # rejection-free: draw levels dimension by dimension inside the index set's downset
+        ks = []
+        used = 0
+        order = list(range(dim))
+        r.shuffle(order)
+        kd = {}
+        for pos, d in enumerate(order):
+            rest = (dim - pos - 1) * lmin
+            top = budget - used - rest          # max(k_d, lmin) <= top
+            k = r.randint(lo, max(lo, top))
+            kd[d] = k
+            used += max(k, lmin)
+        out = []
+        for d in range(dim):
+            k = kd[d]
+            i = r.choice([0, 1]) if k == 0 else r.choice(range(1, 2 ** k, 2))
+            out.append([k, i])
+        return out
+    probes = [["hat", draw()] for _ in range(n)]
+    combo = [[round(r.uniform(-2, 2), 3), draw()] for _ in range(3)]
+    probes.append(["combo", combo])
+    return probes
+
+
+def linear_probes(r, dim, n):
+    return [["lin", [round(r.uniform(-2, 2), 3) for _ in range(dim + 1)]] for _ in range(n)]
+
+
+class ExactnessMonitor(Monitor):
+    """probe components (functions the initial configuration treats exactly) stay exact in the reported result
+    and in the combined interpolant"""
+
+    def __init__(self, npoints=6):
+        self.npoints = npoints
+
+    def sig(self, sim, **kw):
+        c = sim.cfg
+        s = {"strategy": "dimension_wise", "version": c["version"], "rebalancing": c["rebalancing"],
+             "rotation_fired": bool(sim.ctx.probes.get("rebalancing")), "boundary": c["boundary"],
+             "lmax_raised": any(int(x) > c["lmax"] for x in sim.sa.lmax),
+             "modified_basis": c.get("modified_basis", False)}
+        s.update(kw)
+        return s
+
+    @staticmethod
+    def relevelled_points(sim):
+        """per dimension: positions of points of the initial dyadic grid whose tree level was changed (only a
+        rebalancing rotation does that)"""
+        c = sim.cfg
+        out = []
+        L0 = c["lmax"]
+        for d, objs in enumerate(sim.containers()):
+            a, b = c["a"][d], c["b"][d]
+            cur = [(float(o.end), int(o.levels[1])) for o in objs[:-1]]
+            moved = []
+            for i in range(1, 2 ** L0):
+                x = a + (b - a) * i / 2 ** L0
+                lev = L0
+                ii = i
+                while ii % 2 == 0:
+                    ii //= 2
+                    lev -= 1
+                best = min(cur, key=lambda t: abs(t[0] - x)) if cur else None
+                if best is None or abs(best[0] - x) > 1e-12 * max(1.0, abs(a), abs(b)) or best[1] != lev:
+                    moved.append(x)
+            out.append(moved)
+        return out
+
+    @staticmethod
+    def probe_touches(spec, moved, c):
+        hats = [spec[1]] if spec[0] == "hat" else ([hs for _, hs in spec[1]] if spec[0] == "combo" else [])
+        for hs in hats:
+            for d, (k, i) in enumerate(hs):
+                a, b = c["a"][d], c["b"][d]
+                if k == 0:
+                    lo, hi = a, b
+                else:
+                    h = (b - a) / 2 ** k
+                    lo, hi = a + (i - 1) * h, a + (i + 1) * h
+                eps = 1e-12 * max(1.0, abs(a), abs(b))
+                if any(lo - eps <= x <= hi + eps for x in moved[d]):
+                    return True
+        return False
+
+    def fail_sig(self, sim, spec):
+        moved = self.relevelled_points(sim)
+        return self.sig(sim, probe=spec[0], relevelled_in_support=self.probe_touches(spec, moved, sim.cfg))
+
+    def on_eval(self, sim):
+        import numpy as np
+        from simcore.env import probe_integral, probe_value
+        ctx, f, c = sim.ctx, sim.f, sim.cfg
+        if "exactness" in ctx.tainted:
+            return
+        res = np.asarray(sim.op.get_result(), dtype=float)
+        scheme = sim.scheme_map()
+        sabs = 1 + sum(abs(v) for v in scheme.values())
+        vol = float(np.prod(np.array(c["b"]) - np.array(c["a"])))
+        amax = max(max(abs(x) for x in c["a"]), max(abs(x) for x in c["b"]), 1.0)
+        if not hasattr(self, "dropped"):
+            self.dropped = set()
+        for j, spec in enumerate(f.probes):
+            if j in self.dropped:
+                continue
+            want = probe_integral(spec, c["a"], c["b"])
+            scale = vol * (6.0 * amax ** (c["dim"] if spec[0] in ("lin", "ml") else 1))
+            tol = 256 * EPS * sabs * scale * max(8, len(scheme))
+            got = float(res[f.nnoise + j])
+            if not abs(got - want) <= tol:
+                ctx.violate("probe_integral_exact", self.fail_sig(sim, spec),
+                            "evaluation %d: probe %s integrates to %r, analytic value %r (tol %.2e); lmax=%s scheme=%s" % (
+                                sim.n_eval, spec, got, want, tol, list(sim.sa.lmax), sorted(scheme.items())), taint="exactness")
+                return
+        ctx.ok("probe_integral_exact", len(f.probes))
+        if not f.probes or "interpolation" in ctx.tainted:
+            return
+        # interpolation at seeded points: random interior points, interval end points, grid points
+        P = []
+        for k in range(self.npoints):
+            p = []
+            for d in range(c["dim"]):
+                u = H(sim.rk, "ip", sim.n_eval, k, d)
+                if k % 3 == 2:
+                    objs = sim.containers()[d]
+                    o = objs[int(u * len(objs)) % len(objs)]
+                    x = float(o.end) if (o.end != c["b"][d] or c["boundary"]) else float(o.start)
+                    if not c["boundary"] and (x == c["a"][d] or x == c["b"][d]):
+                        x = 0.5 * (c["a"][d] + c["b"][d])
+                else:
+                    x = c["a"][d] + (c["b"][d] - c["a"][d]) * (0.02 + 0.96 * u)
+                p.append(x)
+            P.append(tuple(p))
+        vals = np.asarray(sim.sa(P))
+        for p, v in zip(P, vals):
+            for j, spec in enumerate(f.probes):
+                if j in self.dropped:
+                    continue
+                want = probe_value(spec, p, c["a"], c["b"])
+                tol = 256 * EPS * sabs * 6.0 * (amax ** (c["dim"] if spec[0] in ("lin", "ml") else 1)) * max(8, len(scheme))
+                got = float(v[f.nnoise + j])
+                if not abs(got - want) <= tol:
+                    ctx.violate("probe_interpolation_exact", self.fail_sig(sim, spec),
+                                "evaluation %d: probe %s interpolated at %s gives %r, exact %r (tol %.2e); scheme=%s" % (
+                                    sim.n_eval, spec, p, got, want, tol, sorted(scheme.items())),
+                                taint="interpolation" if c.get("modified_basis") else "exactness")
+                    return
+        ctx.ok("probe_interpolation_exact", len(P) * len(f.probes))
